@@ -163,6 +163,18 @@ func Check(c *Case, r *mon.R) {
 		}
 		var order []*RNode
 		var bad string
+		before := ""
+		if len(nodes) <= 300 {
+			before = Dump([]parser.Statement{st}, 0, true)
+		}
+		defer func(st parser.Statement, si int) {
+			// a traversal only reads the tree: it is the same afterwards
+			if before != "" && !r.Violated() {
+				if after := Dump([]parser.Statement{st}, 0, true); after != before {
+					r.Violation("", "the traversals of statement %d of %q changed the tree:\n before: %s\n after:  %s", si, src, before, after)
+				}
+			}
+		}(st, si)
 		o := mon.Walk(st, func(n parser.Node) bool {
 			if IsNilNode(n) {
 				if bad == "" {
